@@ -497,7 +497,8 @@ def dec_nlri(data: bytes, afi: int, safi: int, addpath: bool, withdraw: bool = F
                 v = int.from_bytes(chunk[:3], 'big')
                 chunk = chunk[3:]
                 bits -= 24
-                if withdraw and v in (0x800000, 0x000000):
+                if withdraw and v == 0x800000:
+                    # RFC 8277 2.4: the label field of a withdrawn route is 0x800000 and carries no meaning
                     labs.append(v >> 4)
                     break
                 labs.append(v >> 4)
